@@ -289,6 +289,30 @@ theorem step_fin6 {s s' : State} {t : Nat} {l : Label} {cs : List Nat} (h : Inv 
 theorem step_linger {s s' : State} {t : Nat} {l : Label}  (h : Inv s) (hph : s.phase t = .linger)
     (hs : step s t = some (s', l)) : Inv s' := by
   unfold step at hs; rw [hph] at hs; simp only at hs
-  split at hs <;> (try cases hs) <;> (topen; trest)
+  split at hs
+  · cases hs; topen; trest
+  · split at hs
+    · split at hs
+      · cases hs; topen; trest
+      · -- sixty seconds without a joiner: the thread (stopped long ago) takes itself out of its parent's list
+        cases hs
+        have hst : s.stopped t = true := (h.stP t).mpr (by rw [hph]; rfl)
+        have hsub : ∀ p x, x ∈ s.children p → x ∈ upd s.children (s.parent t) ((s.children (s.parent t)).erase t) p ∨ x = t := by
+          intro p x hx
+          by_cases hxt : x = t
+          · exact Or.inr hxt
+          · left; simp only [upd]; split
+            · rename_i hp; subst hp; exact (List.mem_erase_of_ne hxt).mpr hx
+            · exact hx
+        topen
+        case ever =>
+          intro p c hc
+          rcases ever p c hc with h1 | h1
+          · rcases hsub p c h1 with h2 | h2
+            · exact Or.inl h2
+            · subst h2; exact Or.inr hst
+          · exact Or.inr h1
+        trest
+    · cases hs
 
 end MoThreads.ThreadTree
